@@ -70,6 +70,10 @@ struct Driver {
     nprobe: u64,
     by_kind: BTreeMap<String, (u64, u64)>,
     samples: Vec<serde_json::Value>,
+    /// an ask / a bid the driver keeps coming back to with small partial operations, so that single
+    /// orders live through long sequences of fills, refunds and partial rejects
+    focus_ask: Option<String>,
+    focus_bid: Option<String>,
 }
 
 fn dec(n: i64, sp: &str) -> DecT {
@@ -366,7 +370,9 @@ impl Driver {
     fn price(&mut self, cfg: &CfgT) -> DecT {
         // a multiple of 10^-prec between about 0.5 and 20, occasionally one decimal too many
         let unit = 10i64.pow((4 - cfg.prec.min(4)) as u32);
-        let k = self.rng.gen_range(1..=(200_000 / unit).max(1)).min(20 * SCALE / unit);
+        // keep price * (one lot) within the range the judge's 32-bit arithmetic can follow
+        let cap = (MAX_QUOTE * SCALE / cfg.inc.max(1)).clamp(unit, 20 * SCALE);
+        let k = self.rng.gen_range(1..=(cap / unit).max(1));
         let mut n = (k * unit).max(unit);
         if self.chance(0.03) && unit >= 10 {
             n += unit / 10;
@@ -501,6 +507,21 @@ impl Driver {
     fn gen_reverse(&mut self, st: &StateT) -> Option<ReqT> {
         let exec = st.cfg.executors.choose(&mut self.rng).cloned().unwrap_or_else(|| "exec1".into());
         let funds = if self.chance(0.02) { vec![CoinT { denom: "q1".into(), amt: 1 }] } else { vec![] };
+        // come back to the focused orders with a small partial reject
+        if self.chance(0.3) {
+            if let Some(k) = self.focus_bid.clone() {
+                if let Some(b) = st.bids.get(&k) {
+                    let size = (st.cfg.inc.max(1) * self.rng.gen_range(1..=2)).min(b.size - b.ab);
+                    return Some(ReqT::RejectBid { sender: exec, funds, id: k, size });
+                }
+            }
+            if let Some(k) = self.focus_ask.clone() {
+                if let Some(a) = st.asks.get(&k) {
+                    let size = (st.cfg.inc.max(1) * self.rng.gen_range(1..=2)).min(a.size);
+                    return Some(ReqT::RejectAsk { sender: exec, funds, id: k, size });
+                }
+            }
+        }
         if self.chance(0.5) && !st.asks.is_empty() {
             let a = (*st.asks.values().collect::<Vec<_>>().choose(&mut self.rng)?).clone();
             let key = st.asks.iter().find(|(_, v)| **v == a).map(|(k, _)| k.clone())?;
@@ -542,7 +563,19 @@ impl Driver {
                 }
             }
         }
-        let (ak, bk) = pairs.choose(&mut self.rng)?.clone();
+        let mut chosen = pairs.choose(&mut self.rng)?.clone();
+        let mut focused = false;
+        if self.chance(0.55) {
+            let fa = self.focus_ask.clone();
+            let fb = self.focus_bid.clone();
+            let cands: Vec<&(String, String)> =
+                pairs.iter().filter(|(a, b)| Some(a) == fa.as_ref() || Some(b) == fb.as_ref()).collect();
+            if let Some(c) = cands.choose(&mut self.rng) {
+                chosen = (*c).clone();
+                focused = true;
+            }
+        }
+        let (ak, bk) = chosen;
         let a = st.asks[&ak].clone();
         let b = st.bids[&bk].clone();
         let n = match self.rng.gen_range(0..20) {
@@ -553,7 +586,18 @@ impl Driver {
         };
         let price = self.spelling(n);
         let cap = a.size.min(b.size - b.ab).max(1);
-        let size = match self.rng.gen_range(0..10) {
+        let size = if focused && self.chance(0.8) {
+            // nibble: one to three lots, so that the focused order survives many operations
+            (st.cfg.inc.max(1) * self.rng.gen_range(1..=3)).min(cap)
+        } else {
+            self.match_size(st, &a, &b, cap)
+        };
+        let funds = if self.chance(0.02) { vec![CoinT { denom: "q1".into(), amt: 1 }] } else { vec![] };
+        Some(ReqT::ExecuteMatch { sender: self.any_sender(&exec, 0.93), funds, ask_id: ak, bid_id: bk, price, size })
+    }
+
+    fn match_size(&mut self, st: &StateT, a: &AskT, b: &BidT, cap: i64) -> i64 {
+        match self.rng.gen_range(0..10) {
             0..=3 => cap,
             4..=5 => {
                 let inc = st.cfg.inc.max(1);
@@ -562,9 +606,7 @@ impl Driver {
             6..=7 => self.rng.gen_range(1..=cap),
             8 => cap + 1,
             _ => a.size.max(b.size - b.ab),
-        };
-        let funds = if self.chance(0.02) { vec![CoinT { denom: "q1".into(), amt: 1 }] } else { vec![] };
-        Some(ReqT::ExecuteMatch { sender: self.any_sender(&exec, 0.93), funds, ask_id: ak, bid_id: bk, price, size })
+        }
     }
 
     fn gen_modify(&mut self, st: &StateT) -> ReqT {
@@ -692,9 +734,47 @@ impl Driver {
         self.w.clear_storage();
         self.held.clear();
         self.logs.clear();
+        self.focus_ask = None;
+        self.focus_bid = None;
         self.env = self.gen_env();
+        // a few malformed instantiation attempts first (each must be refused and leave nothing behind)
+        let mut first = true;
+        let tries = if self.profile == Profile::Create { self.rng.gen_range(0..4) } else { self.rng.gen_range(0..2) };
+        for _ in 0..tries {
+            let mut bad = self.gen_instantiate();
+            if let ReqT::Instantiate { msg, .. } = &mut bad {
+                match self.rng.gen_range(0..12) {
+                    0 => msg.name = String::new(),
+                    1 => msg.base = String::new(),
+                    2 => msg.quotes = vec![],
+                    3 => msg.executors = vec![],
+                    4 => msg.prec = 19,
+                    5 => msg.inc = 0,
+                    6 => msg.inc += 1 + self.rng.gen_range(0..3),
+                    7 => msg.askfee_acct = none_str(),
+                    8 => msg.bidfee_rate = none_dec(),
+                    9 => msg.approvers.push("BAD".into()),
+                    10 => {
+                        msg.askfee_rate = some(dec(0, "bad_word"));
+                        msg.askfee_acct = some("askfee1".into());
+                    }
+                    _ => {
+                        msg.bidfee_rate = some(dec(2500, "plain"));
+                        msg.bidfee_acct = some(String::new());
+                    }
+                }
+            }
+            let (r, p) = self.record(&bad, false, first, StateT::empty());
+            first = false;
+            if r.ok {
+                // an accepted variant (e.g. increment + k that is still a multiple): start over from nothing
+                let _ = p;
+                self.w.clear_storage();
+                first = true;
+            }
+        }
         let inst = self.gen_instantiate();
-        let (resp, mut st) = self.record(&inst, false, true, StateT::empty());
+        let (resp, mut st) = self.record(&inst, false, first, StateT::empty());
         if !resp.ok {
             return;
         }
@@ -750,6 +830,13 @@ impl Driver {
                 }
             }
             st = post;
+            // keep a focused ask and bid: the largest open ones when the current focus has gone
+            if self.focus_ask.as_ref().map(|k| !st.asks.contains_key(k)).unwrap_or(true) {
+                self.focus_ask = st.asks.iter().filter(|(_, a)| a.class != "pending").max_by_key(|(_, a)| a.size).map(|(k, _)| k.clone());
+            }
+            if self.focus_bid.as_ref().map(|k| !st.bids.contains_key(k)).unwrap_or(true) {
+                self.focus_bid = st.bids.iter().max_by_key(|(_, b)| b.size - b.ab).map(|(k, _)| k.clone());
+            }
             self.probes(&st.clone(), &closed);
 
             if p == Profile::Migrate && self.chance(0.04) {
@@ -813,6 +900,8 @@ pub fn main(args: &[String]) -> i32 {
         nprobe: 0,
         by_kind: BTreeMap::new(),
         samples: vec![],
+        focus_ask: None,
+        focus_bid: None,
     };
     for h in 0..histories {
         d.rng = StdRng::seed_from_u64(seed.wrapping_mul(1_000_003).wrapping_add(h as u64));
